@@ -60,6 +60,10 @@ def closed_symmetric(g):
     for x in lines:
         rt = x.record_type
         if rt == "H":
+            # the H lines which a Gfa lists are per-tag copies of its one header line, made on the
+            # fly: they take part in no reference, but they are listed lines like the others
+            if x.gfa is not g:
+                bad.append(("owner/H", "listed header line reports no owner (gfa is %r): %s" % (x.gfa, safe_str(x))))
             continue
         if x.gfa is not g:
             bad.append(("owner/%s" % rt, "listed line reports another owner: %s" % safe_str(x)))
